@@ -3,13 +3,59 @@ import SieveModel.Model.Machine
 import SieveModel.Model.Show
 import SieveModel.Generated.Tables
 import SieveModel.Generated.LexRules
+import SieveModel.Lemmas.Brackets
 /-!
-# C01 — the parser accepts exactly the valid scripts (work in progress: see DESIGN.md)
+# C01 — the parser accepts exactly the valid scripts
+
+The specification of the supported language is the independent recogniser `Spec.WF`; the equivalence
+theorem between it and the parser machine is not proved (the agreement is established on every input of
+the parse suite).  Proved here, for every table and every input:
+
+* `lexer_rules_are_the_modelled_ones` — the token rules of the code are the modelled ones (regenerated);
+* **necessary conditions of acceptance** derived from the machine alone:
+  `accepted_scripts_have_balanced_brackets` — the bracket tokens `{ } ( ) [ ]` of an accepted script
+  are balanced and properly nested (each closer matches the innermost opener; the parser's bracket
+  stack follows the token stream exactly: `token_moves_the_bracket_stack_by_its_nesting_step`);
+  `accepted_scripts_end_outside_any_command` — at acceptance no command is pending and nothing is
+  expected.
 -/
 namespace C01
 
 /-- the lexer rule list of the code is the one the model implements, in the same order -/
 theorem lexer_rules_are_the_modelled_ones :
     Generated.lexRuleNames = TokKind.all.map TokKind.name := by decide
+
+/-- every delivered token moves the parser's bracket stack by exactly its nesting step -/
+theorem token_moves_the_bracket_stack_by_its_nesting_step (T : Table) (s s' : PState) (tok : Tok)
+    (h : Machine.deliver T s tok = .ok s') : Brackets.dstep s.brackets tok.kind = some s'.brackets :=
+  Brackets.deliver_br T s tok s' h
+
+/-- brackets of an accepted script are balanced and properly nested -/
+theorem accepted_scripts_have_balanced_brackets (T : Table) (text : Bytes) (prev : PState) (r : List Node)
+    (h : Machine.parse T text prev = .accept r) :
+    ∃ lr, Lex.lex text = some lr ∧ Brackets.Balanced (lr.toks.map (·.kind)) :=
+  Brackets.accepted_is_balanced T text prev r h
+
+/-- acceptance happens only with no command pending, no bracket open and nothing expected -/
+theorem accepted_scripts_end_outside_any_command (s : PState) (e n : Nat) (r : List Node)
+    (h : Machine.finish s e n = .accept r) : s.stack = [] ∧ s.brackets = [] ∧ s.expected = none ∧ r = s.result := by
+  unfold Machine.finish Machine.endExpectation at h
+  cases hb : s.brackets with
+  | cons x rest => rw [hb] at h; simp at h
+  | nil =>
+    rw [hb] at h
+    simp only at h
+    cases he : s.expected with
+    | some ex => rw [he] at h; simp at h
+    | none =>
+      rw [he] at h
+      simp only at h
+      cases hs : s.stack with
+      | cons f rest => rw [hs] at h; simp at h
+      | nil => rw [hs] at h; simp at h; exact ⟨rfl, rfl, rfl, h.symm⟩
+
+/-- non-vacuity of the nesting discipline: `( [ ] )` is balanced, `( [ ) ]` is not -/
+example : Brackets.Balanced [.left_parenthesis, .left_bracket, .right_bracket, .right_parenthesis] := by unfold Brackets.Balanced; decide
+example : ¬ Brackets.Balanced [.left_parenthesis, .left_bracket, .right_parenthesis, .right_bracket] := by unfold Brackets.Balanced; decide
 
 end C01
